@@ -1,0 +1,14 @@
+//go:build verif
+
+package readers
+
+/*@
+// a CallbackReader yields exactly the bytes of the reader it wraps (callbacks only observe)
+func NewCallbackReader(r io.Reader) (cr *CallbackReader)
+  trusted
+  flag allocates
+  ensures cr != nil && fresh(cr) && rdRem[ref(cr)] == rdRem[ifaceVal(r)] && rdFail[ref(cr)] == rdFail[ifaceVal(r)]
+
+func (cr *CallbackReader) Close() (err error)
+  trusted
+@*/
